@@ -560,4 +560,6 @@ fn run(ctx: &mut Ctx) {
     integers(ctx);
     nas(ctx);
     nas_sort(ctx);
+    // number-as-string arithmetic re-entered through macros that refer to themselves (shared with C12)
+    super::c12::recursive_macros(ctx);
 }
